@@ -207,3 +207,120 @@ def replay(run, path, prop):
     if bad:
         print("VIOLATION property=%s replay=%s" % (prop, path))
     return 1 if bad else 0
+
+
+# ---------------------------------------------------------------------------- C14 (toolkit half)
+
+KNOWN_CMDS = {("POWERON", 0), ("POWEROFF", 0), ("RXTUNE", 1), ("TXTUNE", 1), ("MEASURE", 1), ("SETFORMAT", 1),
+              ("SETPOWER", 1), ("NOMTXPOWER", 0), ("RFMUTE", 1), ("SETTA", 1), ("FAKE_TOA", 2), ("FAKE_TOA", 1),
+              ("FAKE_RSSI", 2), ("FAKE_RSSI", 1), ("FAKE_CI", 2), ("FAKE_CI", 1), ("FAKE_DROP", 1), ("FAKE_DROP", 2),
+              ("FAKE_TRXC_DELAY", 1)}
+
+
+def ctrl_malformed(payload, recv=1024):
+    """is this control datagram malformed in the sense of C14 (non-text, no CMD prefix, or a
+    non-numeric argument of a known command)?  Uses Python's own decode()/int(), no toolkit code."""
+    try:
+        s = payload[:recv].decode()
+    except UnicodeDecodeError:
+        return "non-text"
+    if not s.startswith("CMD"):
+        return "no-prefix"
+    req = s[4:].strip().strip("\0").split(" ")
+    verb, args = req[0], req[1:]
+    known = (verb, len(args)) in KNOWN_CMDS or (verb == "SETFH" and len(args) >= 4)
+    if known:
+        if verb == "FAKE_RSSI" and len(args) == 2:
+            # documented: a negative threshold only disables the simulation, the base is not used
+            try:
+                if int(args[1]) < 0:
+                    return None
+            except ValueError:
+                pass
+        for a in args:
+            try:
+                int(a)
+            except ValueError:
+                return "non-numeric"
+    return None
+
+
+def data_malformed(payload, recv=512):
+    d = payload[:recv]
+    if len(d) < 6:
+        return "short"
+    if (d[0] >> 4) not in (0, 1):
+        return "version"
+    return None
+
+
+def c14_oracle(run, corr, deep, n_quick=120, n_thorough=3000):
+    """metamorphic oracle on the real code: a history with malformed datagrams must behave, on all
+    other operations and in the final state, exactly like the same history without them; malformed
+    ones are ignored or answered with an error status; no exception ever escapes."""
+    n = run.scale(n_quick, n_thorough) * (3 if deep else 1)
+    g = worldgen.Gen(random.Random(run.seed * 104729 + 5), train(run))
+    pairs = []
+    for k in range(n):
+        l = g.history(run.rng.choice([10, 25, 50]), "fuzz" if k % 3 else "mixed")
+        head, ops = l.split(" | ", 1)
+        ops = ops.split(" ; ")
+        keep, mal = [], []
+        for i, o in enumerate(ops):
+            t = o.split()
+            m = None
+            if t[0] == "C":
+                m = ctrl_malformed(bytes.fromhex(t[3]) if t[3] != "-" else b"")
+            elif t[0] == "D":
+                m = data_malformed(bytes.fromhex(t[2]) if t[2] != "-" else b"")
+            (mal if m else keep).append((i, o, m))
+        if not keep:
+            continue
+        pairs.append((l, head + " | " + " ; ".join(o for _, o, _ in keep), keep, mal))
+    ans_full = run_impl([p[0] for p in pairs])
+    ans_clean = run_impl([p[1] for p in pairs])
+    found = 0
+    kinds = {}
+    for (l, lc, keep, mal), a, b in zip(pairs, ans_full, ans_clean):
+        if a.startswith("cfgerr"):
+            continue
+        pa, pb = a.split(" | "), b.split(" | ")
+        oa, ob = pa[0].split(" ; "), pb[0].split(" ; ")
+        w = None
+        for (i, o, m) in mal:
+            kinds[m] = kinds.get(m, 0) + 1
+            x = oa[i]
+            if "EXC:" in x:
+                w = {"what": "exception escapes on a malformed datagram (%s)" % m, "op": o[:300], "observed": x[:200]}
+                break
+            if x != ".":
+                # must be a single control reply with a non-zero status
+                dg, _, _ = worldspec.parse_obs(x)
+                ok = len(dg) == 1 and dg[0][3].startswith(b"RSP ")
+                if ok:
+                    f = dg[0][3].decode("latin1").split(" ")
+                    ok = len(f) >= 3 and f[2].rstrip("\0") not in ("0",)
+                if not ok:
+                    w = {"what": "malformed datagram (%s) neither ignored nor answered with an error status" % m, "op": o[:300], "observed": x[:200]}
+                    break
+        if w is None:
+            if any("EXC:" in x for x in oa):
+                k = [i for i, x in enumerate(oa) if "EXC:" in x][0]
+                w = {"what": "exception escapes", "op_index": k, "observed": oa[k][:200]}
+            else:
+                rest = [oa[i] for (i, _, _) in keep]
+                if rest != ob or pa[1:] != pb[1:]:
+                    k = [j for j, (x, y) in enumerate(zip(rest, ob)) if x != y]
+                    w = {"what": "behaviour after malformed input differs from the same session without it",
+                         "op": keep[k[0]][1][:300] if k else "final state",
+                         "observed": (rest[k[0]][:200] if k else " | ".join(pa[1:])[-300:]),
+                         "expected": (ob[k[0]][:200] if k else " | ".join(pb[1:])[-300:])}
+        if w is not None:
+            w.update({"kind": "world-history", "property": "C14", "history": l, "readable": describe(l)})
+            found += run.report_witness(w)
+            if found >= 3:
+                break
+    corr.distribution["oracle(C14): session pairs (with / without malformed datagrams)"] = len(pairs)
+    for k, v in kinds.items():
+        corr.distribution["oracle(C14): malformed datagrams: " + k] = v
+    return found
